@@ -7,6 +7,7 @@ REPO = os.environ.get('PEXPECT_REPO', '/repo')
 PY = '/venv/bin/python'
 ACCEPTED_AXIOMS = {'propext', 'Classical.choice', 'Quot.sound'}
 REQUIRED_TRANSLATORS = {'C13': ('split_table.py',), 'C17': ('pxssh_table.py',), 'C18': ('ansi_table.py',), 'C19': ()}
+CORE_DRIVERS = ['PexpectModel.Drv.' + m for m in ('Ex', 'Screen', 'Forms', 'Transport', 'Deadline', 'Session', 'Life', 'Run', 'Async', 'Repl', 'Interact')]
 FORBIDDEN = re.compile(r'\b(sorry|admit|native_decide|bv_decide|implemented_by)\b|^\s*axiom\s|\bunsafe\s|maxHeartbeats\s+0')
 
 TRUSTED_BASE = [
@@ -191,14 +192,20 @@ def run_model(lines, timeout=3000):
     """Pipe op lines to the Lean model driver; one output line per input line."""
     if not lines:
         return []
+    # one driver per group of models: the groups built on a table regenerated from the source stand alone, so that a change which breaks one
+    # generated model cannot make the drivers of the other properties unavailable
+    tok = lines[0].split(' ', 1)[0]
+    main, mods = {'AN': ('MainAnsi.lean', ['PexpectModel.Drv.Ansi']), 'SP': ('MainLaunch.lean', ['PexpectModel.Drv.Launch']),
+                  'WH': ('MainLaunch.lean', ['PexpectModel.Drv.Launch']), 'PX': ('MainPxssh.lean', ['PexpectModel.Drv.Pxssh']),
+                  'PP': ('MainPxssh.lean', ['PexpectModel.Drv.Pxssh']), 'LV': ('MainPxssh.lean', ['PexpectModel.Drv.Pxssh'])}.get(tok, ('MainCore.lean', CORE_DRIVERS))
     lock = _lock()
     try:
-        ok, out = lake_build(['PexpectModel.Drv.All'])
+        ok, out = lake_build(mods)
         if not ok:
             raise ModelUnavailable(out[-2000:])
     finally:
         lock.close()
-    p = subprocess.run(['lake', 'env', 'lean', '--run', 'Main.lean'], cwd=LEAN, input='\n'.join(lines) + '\n',
+    p = subprocess.run(['lake', 'env', 'lean', '--run', main], cwd=LEAN, input='\n'.join(lines) + '\n',
                        stdout=subprocess.PIPE, stderr=subprocess.PIPE, text=True, timeout=timeout)
     outs = p.stdout.splitlines()
     if p.returncode != 0 or len(outs) != len(lines):
